@@ -14,6 +14,7 @@ import Emu.Proofs.ListingDelim2
 import Emu.Proofs.Gcs
 import Emu.Proofs.LeafTie.GreaterThanPrefix
 import Emu.Proofs.LeafTie.LessThanPrefix
+import Emu.Proofs.Token
 
 namespace Emu.Props.C11
 open Emu Emu.Gcs Emu.Proofs.Listing
@@ -168,5 +169,19 @@ theorem pruned_directories_lose_nothing (pfx delim cursor skip : Bytes) (max : N
   exact Emu.Proofs.LeafTie.pruned_name_contributes_nothing pfx delim cursor skip max p dir ext h
 
 example : Emu.Generated.Leaf.lessThanPrefix [97] [98, 47] = true := by decide
+
+/-! ### Page tokens
+
+`nextPageToken` is the wire form of a one-field protobuf message holding the last name consumed
+(`Emu.Gcs.Token.encode`; base64 aside).  Whatever the name — any bytes, not only UTF-8, any length up
+to and beyond the 1024 bytes GCS allows — decoding the token gives the name back, so "following
+nextPageToken" resumes exactly after the last name of the page. -/
+
+theorem page_token_round_trip (name : Bytes) :
+    Emu.Gcs.Token.decode (Emu.Gcs.Token.encode name) = some name :=
+  Emu.Proofs.Token.decode_encode name
+
+example : Emu.Gcs.Token.decode [10, 3, 97, 255, 98] = some [97, 255, 98] ∧ Emu.Gcs.Token.decode [10, 5, 97] = none ∧
+    Emu.Gcs.Token.decode [10, 130, 0, 1, 2] = some [1, 2] := by decide
 
 end Emu.Props.C11
